@@ -5064,7 +5064,12 @@ class DfaCompileCtx:
             if DFTransition.Else in transition.on_values:
                 effective.update(transition.target.compute_foreign_else_definition(orig_state))
 
-            next_target = transition.target[effective]
+            # All of the symbols this transition stands for must continue the same way at the target
+            next_targets = set(transition.target[symbol] for symbol in effective)
+            if len(next_targets) != 1:
+                continue
+
+            next_target = next_targets.pop()
 
             if next_target is None or next_target.is_fallthrough:
                 continue
